@@ -147,7 +147,7 @@ def run(ctx):
         except AnchorMissing as e:
             r0.fail("C14.R0:anchor:%s" % contract, "-", "-", "anchor-missing: %s" % e)
             continue
-        for variant in common.enum_variants(P, roles.EXEC_ENUM[contract]):
+        for variant in common.enum_variants(P, ctx.N.exec_enum(contract)):
             pol = POLICY.get((contract, variant))
             if pol is None:
                 r0.fail("C14.R0:unclassified:%s::%s" % (contract, variant), ex.path, ex.span,
@@ -169,7 +169,7 @@ def run(ctx):
         except AnchorMissing as e:
             r0.fail("C14.R0:anchor:hook:%s" % contract, "-", "-", "anchor-missing: %s" % e)
             continue
-        for variant in common.enum_variants(P, roles.HOOK_ENUM[contract]):
+        for variant in common.enum_variants(P, ctx.N.hook_enum(contract)):
             pol = HOOK_POLICY.get((contract, variant))
             if pol is None:
                 r0.fail("C14.R0:unclassified:hook:%s::%s" % (contract, variant), recv.path, recv.span, "new hook variant without caller policy")
@@ -194,14 +194,14 @@ def run(ctx):
         except AnchorMissing as e:
             inst.fail("%s:anchor" % inst.id, fn.path, fn.span, "anchor-missing: %s" % e)
             continue
-        guard_in_handler(ctx, inst, fn, {"canon(%s)" % P_(fn, info, ".sender")}, {"load(I:halo_factory::state::CONFIG).owner"}, "owner")
+        guard_in_handler(ctx, inst, fn, {"canon(%s)" % P_(fn, info, ".sender")}, {"load(%s).owner" % ctx.N.FACTORY_CONFIG}, "owner")
 
     # ---- R5 ownership follows a successful update -----------------------------------------
     r5 = ctx.inst("C14.R5", "factory CONFIG.owner is written only as canonicalize(new owner) / kept, and at instantiation as the instantiator", floor=2)
     cfg_writes = []
     for fn in P.prod_fns():
         for (b, op, item, v) in common.storage_sites(P, fn, writes=True):
-            if item == "I:halo_factory::state::CONFIG":
+            if item == ctx.N.FACTORY_CONFIG:
                 cfg_writes.append((fn, b, op, v))
     h = handlers.get(("factory", "UpdateConfig"))
     try:
@@ -214,7 +214,7 @@ def run(ctx):
         where = common.span_of_block_term(fn, b)
         if h is not None and fn.path == h[3].path:
             own = [i - 1 for i in range(1, fn.body.arg_count + 1) if fn.body.names.get(i) == "owner" or fn.body.locals[i]["ty"] == "std::option::Option<std::string::String>"]
-            allowed = {"load(I:halo_factory::state::CONFIG).owner"} | {"canon(%s)" % P_(fn, i) for i in own}
+            allowed = {"load(%s).owner" % ctx.N.FACTORY_CONFIG} | {"canon(%s)" % P_(fn, i) for i in own}
             if not owner_roots <= allowed or not any(r.startswith("canon(") for r in owner_roots):
                 r5.fail("C14.R5:update:owner-origin", fn.path, where, "saved owner originates from %s, expected stored owner or canonicalize(new owner)" % sorted(owner_roots))
             else:
@@ -236,10 +236,10 @@ def run(ctx):
     else:
         fn = h[3]
         info = param(fn, INFO_TY)
-        guard_in_handler(ctx, r6, fn, {P_(fn, info, ".sender")}, {"load(I:halo_pair::state::CONFIG).halo_factory"}, "factory-only")
+        guard_in_handler(ctx, r6, fn, {P_(fn, info, ".sender")}, {"load(%s).halo_factory" % ctx.N.PAIR_CONFIG}, "factory-only")
     for fn in P.prod_fns():
         for (b, op, item, v) in common.storage_sites(P, fn, writes=True):
-            if item == "I:halo_pair::state::CONFIG":
+            if item == ctx.N.PAIR_CONFIG:
                 where = common.span_of_block_term(fn, b)
                 try:
                     pi = roles.entry(P, "pair", "instantiate")
@@ -264,7 +264,7 @@ def run(ctx):
         recv, edge, region, handler, callbb = hh
         info = param(recv, INFO_TY)
         sinks = [(b, d) for (b, d) in roles.sink_blocks(P, recv) if b in region]
-        gs = find_eq_guard(ctx, recv, {"canon(%s)" % P_(recv, info, ".sender")}, {"load(I:halo_pair::state::PAIR_INFO).liquidity_token"})
+        gs = find_eq_guard(ctx, recv, {"canon(%s)" % P_(recv, info, ".sender")}, {"load(%s).liquidity_token" % ctx.N.PAIR_INFO})
         gs = [x for x in gs if x[0].b in region]
         if not gs:
             r7.fail("C14.R7:no-guard", recv.path, recv.span, "no comparison of canonicalize(info.sender) with PAIR_INFO.liquidity_token in the withdraw arm")
